@@ -388,5 +388,9 @@ PROPS["C09"]["rules"] = PROPS["C09"]["rules"] + [rules_gr.rule_import_compressio
 PROPS["C15"]["rules"] = PROPS["C15"]["rules"] + [rules_gr.rule_rig_number_type]
 PROPS["C15"]["explanation"] += " (RIGNT) the number types for which GR writes a compatibility RIG are accepted by both RIG readers (DFR8, DFGR/DF24)."
 
+PROPS["C15"]["rules"] = PROPS["C15"]["rules"] + [rules_gr.rule_probe_tag]
+PROPS["C15"]["explanation"] += " (PROBETAG) a branch taken because an element of a given tag exists records that tag (the IP8 palette of an ungrouped 8-bit image in GR and DFR8)."
+PROPS["C09"]["rules"] = PROPS["C09"]["rules"] + [rules_gr.rule_probe_tag]
+
 NOT_APPLICABLE = {}
 
